@@ -32,9 +32,14 @@ def run(prop, tier, replay=None):
             for c in cases:
                 f.write(json.dumps(c) + "\n")
         trace = scratch.path("trace.ndjson")
-        p, _ = C.run([harness, "mount", "-cases", cpath, "-out", trace, "-seed", str(seed)], timeout=1800)
-        if p.returncode != 0:
-            raise C.Infra("mount driver failed:\n" + p.stdout[-3000:])
+        # every pattern set is concretised with seeded segment texts and requests: the thorough tier draws 12 times
+        with open(trace, "w") as tf:
+            for k in range(1 if (tier == "quick" or replay) else 12):
+                part = scratch.path("trace%d.ndjson" % k)
+                p, _ = C.run([harness, "mount", "-cases", cpath, "-out", part, "-seed", str(seed + 1000 * k)], timeout=1800)
+                if p.returncode != 0:
+                    raise C.Infra("mount driver failed:\n" + p.stdout[-3000:])
+                tf.write(open(part).read())
         shards = C.split_trace(trace, 8, scratch.path("shards"), lambda l: True)
         reps = C.validate_shards(scratch, "MountTrace.tla", "MountTrace.cfg", shards, timeout=1800)
         stat = collections.Counter()
